@@ -1167,9 +1167,16 @@ def sx_rules(rep, mod, T, fams, facts):
         for (fn_, key), r in sorted(sx.reads.items()):
             if not facts[fam]['clean']:
                 break       # premise missing: R-FBUF / R-FTERM / R-NANINF / R-LDBL report why the cursor ranges are not available
+            if r.get('undecided') and r['ok']:
+                rep.defer_broken(AnalysisBroken(r['undecided']))
+                continue
             rep.inst('R-EMITREAD', fn_, '%s: emission loop %s reads inside the local buffer' % (pct, key), r['ok'],
                      r['where'], r['detail'])
-        res, npaths = c13_sx.float_layout(sx, rets, f, T, wp, fam)
+        try:
+            res, npaths = c13_sx.float_layout(sx, rets, f, T, wp, fam)
+        except AnalysisBroken as e:
+            rep.defer_broken(e)
+            continue
         if npaths == 0:
             raise AnalysisBroken('%s: no return path emits the digit buffer (anchor changed)' % FN)
         for key in sorted(res):
